@@ -16,12 +16,25 @@ def brute_status(history, time):
     return stats[idx]
 
 
-def check_investigation_class(max_changes=2, times_alphabet=(0, 1, 2)):
-    """exhaustive: 3 nodes, histories with <= max_changes changes over the time alphabet (ties included)"""
+def check_investigation_class(max_changes=2, alphabets=((0, 1, 2), (-2, 0, 1))):
+    """exhaustive: 3 nodes, histories with <= max_changes changes over each time alphabet (ties included; the second
+    alphabet starts before 0 so that the query time 0 / 0.0 is an ordinary interior time)"""
+    n = 0
+    for alphabet in alphabets:
+        k, bad = _check_investigation_class(max_changes, alphabet)
+        n += k
+        if bad is not None:
+            return n, bad
+    return n, None
+
+
+def _check_investigation_class(max_changes, times_alphabet):
     import EoN
     G = nx.path_graph(3)
     statuses = ['S', 'I', 'R']
     tmin = times_alphabet[0]
+    queries = sorted(set(times_alphabet) | {a + 0.5 for a in times_alphabet} | {0, times_alphabet[-1] + 1})
+    queries += [0.0] if tmin < 0 else []
     single = []
     for k in range(0, max_changes + 1):
         for ts in itertools.combinations_with_replacement(times_alphabet, k):
@@ -31,7 +44,7 @@ def check_investigation_class(max_changes=2, times_alphabet=(0, 1, 2)):
     rng = random.Random(0)
     combos = list(itertools.product(range(len(single)), repeat=3))
     rng.shuffle(combos)
-    for combo in combos[:4000]:
+    for combo in combos[:3000]:
         n += 1
         hist = {u: (list(single[c][0]), list(single[c][1])) for u, c in zip(G.nodes(), combo)}
         sim = EoN.Simulation_Investigation(G, {u: (list(h[0]), list(h[1])) for u, h in hist.items()}, transmissions=[], possible_statuses=statuses)
@@ -48,13 +61,16 @@ def check_investigation_class(max_changes=2, times_alphabet=(0, 1, 2)):
                         return n, dict(histories=hist, nodelist=nodelist, observed='summary %s at time %s is %s, head count is %s' % (s, tt, D[s][j], want))
         if list(sim.t()) != list(sim.summary()[0]) or any(list(getattr(sim, s)()) != list(sim.summary()[1][s]) for s in statuses):
             return n, dict(histories=hist, observed='t()/S()/I()/R() disagree with summary()')
-        for q in (0, 0.5, 1, 1.5, 2, 3):
+        for q in queries:
             got = sim.get_statuses(time=q)
             for u in G.nodes():
                 want = brute_status(hist[u], q)
                 if sim.node_status(u, q) != want or got[u] != want:
-                    return n, dict(histories=hist, observed='status of node %s at time %s: node_status=%s get_statuses=%s expected %s' % (
+                    return n, dict(histories=hist, observed='status of node %s at time %r: node_status=%s get_statuses=%s expected %s' % (
                         u, q, sim.node_status(u, q), got[u], want))
+            sub = sim.get_statuses(nodelist=[2, 0], time=q)
+            if set(sub) != {0, 2} or any(sub[u] != brute_status(hist[u], q) for u in sub):
+                return n, dict(histories=hist, observed='get_statuses(nodelist=[2, 0], time=%r) = %s' % (q, sub))
         if sim.get_statuses()[0] != brute_status(hist[0], tmin):
             return n, dict(histories=hist, observed='get_statuses() default time is not the first time')
     return n, None
@@ -87,6 +103,9 @@ def simulators():
         'fast_SIR': ('SIR', tm, lambda fd: EoN.fast_SIR(G, 1.0, 1.0, initial_infecteds=[0, 2], initial_recovereds=[5], tmin=tm, return_full_data=fd)),
         'fast_SIR(weighted)': ('SIR', tm, lambda fd: EoN.fast_SIR(G, 1.0, 1.0, initial_infecteds=[0], tmin=tm, transmission_weight='w', recovery_weight='r', return_full_data=fd)),
         'fast_nonMarkov_SIR': ('SIR', tm, lambda fd: EoN.fast_nonMarkov_SIR(G, trans_time_fxn=tt, rec_time_fxn=rt, trans_time_args=(1.0,), rec_time_args=(1.0,), initial_infecteds=[1], initial_recovereds=[4], tmin=tm, tmax=tm + 4, return_full_data=fd)),
+        'fast_nonMarkov_SIR(recovery exactly at tmax)': ('SIR', tm, lambda fd: EoN.fast_nonMarkov_SIR(G, trans_time_fxn=tt, rec_time_fxn=lambda u: 2.0, trans_time_args=(1.0,), initial_infecteds=[1, 3], tmin=tm, tmax=tm + 2.0, return_full_data=fd)),
+        'fast_nonMarkov_SIR(fixed period, events at tmax)': ('SIR', 0, lambda fd: EoN.fast_nonMarkov_SIR(G, trans_time_fxn=lambda u, v: 1.0, rec_time_fxn=lambda u: 2.0, initial_infecteds=[0], tmin=0, tmax=3.0, return_full_data=fd)),
+        'fast_SIS(negative tmin)': ('SIS', -6, lambda fd: EoN.fast_SIS(G, 1.0, 1.0, initial_infecteds=[0, 2], tmin=-6, tmax=-3, return_full_data=fd)),
         'Gillespie_SIR': ('SIR', tm, lambda fd: EoN.Gillespie_SIR(G, 1.0, 1.0, initial_infecteds=[0, 2], initial_recovereds=[5], tmin=tm, return_full_data=fd)),
         'Gillespie_SIR(weighted)': ('SIR', tm, lambda fd: EoN.Gillespie_SIR(G, 1.0, 1.0, rho=0.3, tmin=tm, transmission_weight='w', recovery_weight='r', return_full_data=fd)),
         'fast_SIS': ('SIS', tm, lambda fd: EoN.fast_SIS(G, 1.0, 1.0, initial_infecteds=[0, 2], tmin=tm, tmax=tm + 3, return_full_data=fd)),
@@ -167,4 +186,66 @@ def check_modes_agree(seeds=(1, 2, 3)):
                 tree = full.transmission_tree()
                 if tree.number_of_edges() != infections or any(d > 1 for _, d in tree.in_degree()):
                     return n, dict(simulator=name, seed=seed, observed='transmission_tree is not a forest with one edge per sourced entry')
+    return n, None
+
+
+def check_simple_contagion_transmissions(seeds=(1, 2, 3)):
+    """Gillespie_simple_contagion, every model of the C03 catalogue (incl. a rule whose inducing status equals the status
+    acted on), directed and undirected graph: every entry (t, u, v) goes along an edge u->v, v changes a2->b2 at t and u
+    has, at t, a status a1 with ((a1,a2)->(a1,b2)) an induced transition of the specification; every status change
+    without an entry is a legal spontaneous transition; entries are time-ordered, at most one per change."""
+    import EoN
+    from . import sim_native
+    n = 0
+    graphs = []
+    G = nx.Graph(); G.add_edges_from([(0, 1), (1, 2), (2, 0), (2, 3), (4, 5)]); graphs.append(('undirected', G))
+    D = nx.DiGraph(); D.add_edges_from([(0, 1), (1, 2), (2, 0), (3, 2), (1, 3), (4, 5), (5, 4)]); graphs.append(('directed', D))
+    for _, g in graphs:
+        for u, v in g.edges():
+            g[u][v]['ew'] = 1.0 + ((u + 2 * v) % 3) * 0.5
+        for u in g:
+            g.nodes[u]['nw'] = 1.0 + (u % 2) * 0.5
+    rng = random.Random(9)
+    for gname, Gx in graphs:
+        for sname, H, J, statuses in sim_native.c03_specs():
+            for seed in seeds:
+                n += 1
+                IC = {u: rng.choice(statuses) for u in Gx}
+                random.seed(seed); np.random.seed(seed)
+                wit = dict(graph=gname, edges=list(Gx.edges()), model=sname, IC=dict(IC), seed=seed, tmax=6)
+                try:
+                    sim = EoN.Gillespie_simple_contagion(Gx, H, J, dict(IC), statuses, tmax=6, return_full_data=True)
+                    trans = sim.transmissions()
+                except Exception as e:
+                    wit['observed'] = '%s: %s' % (type(e).__name__, e)
+                    return n, wit
+                changes = {}
+                for u in Gx:
+                    ht, hs = sim.node_history(u)
+                    for i in range(1, len(ht)):
+                        changes[(float(ht[i]), u)] = (hs[i - 1], hs[i])
+                used = set()
+                last = None
+                for (t, src, tgt) in trans:
+                    if last is not None and t < last:
+                        wit['observed'] = 'transmissions not time-ordered at %s' % (t,)
+                        return n, wit
+                    last = t
+                    key = (float(t), tgt)
+                    if not Gx.has_edge(src, tgt):
+                        wit['observed'] = 'entry %s does not go along an edge' % ((t, src, tgt),)
+                        return n, wit
+                    if key not in changes or key in used:
+                        wit['observed'] = 'entry %s: the target does not change status at that time (or two entries for one change)' % ((t, src, tgt),)
+                        return n, wit
+                    used.add(key)
+                    a2, b2 = changes[key]
+                    a1 = sim.node_status(src, t) if (float(t), src) not in changes else changes[(float(t), src)][0]
+                    if not J.has_edge((a1, a2), (a1, b2)):
+                        wit['observed'] = 'entry %s: source has status %s, target moves %s->%s: not an induced transition of the specification' % ((t, src, tgt), a1, a2, b2)
+                        return n, wit
+                for key, (a, b) in changes.items():
+                    if key not in used and not H.has_edge(a, b):
+                        wit['observed'] = 'node %s moves %s->%s at %s without a recorded inducer, but that is not a spontaneous transition' % (key[1], a, b, key[0])
+                        return n, wit
     return n, None
